@@ -17,7 +17,8 @@ type hostKind struct {
 	Build func(r *goja.Runtime) goja.Value // a fresh Go value every time
 	// UnorderedKeys: Go maps are documented to have no stable key order; the monitor's order rule and the
 	// key-list comparisons are skipped by keeping such objects at a single own string key.
-	Keys []keyGroup
+	Keys      []keyGroup
+	Unordered bool
 }
 
 type hostStruct struct {
@@ -103,11 +104,11 @@ func (d *dynArr) SetLen(n int) bool {
 }
 
 var hostKinds = map[string]*hostKind{
-	"host:gomap": {Name: "host:gomap", Build: func(r *goja.Runtime) goja.Value { return r.ToValue(map[string]interface{}{"a": 1}) },
+	"host:gomap": {Name: "host:gomap", Unordered: true, Build: func(r *goja.Runtime) goja.Value { return r.ToValue(map[string]interface{}{"a": 1}) },
 		Keys: []keyGroup{kg(`"a"`), kg(`"b"`), kg("0", `"0"`), kg("@s1")}},
-	"host:gomapr": {Name: "host:gomapr", Build: func(r *goja.Runtime) goja.Value { return r.ToValue(map[string]int{"a": 1}) },
+	"host:gomapr": {Name: "host:gomapr", Unordered: true, Build: func(r *goja.Runtime) goja.Value { return r.ToValue(map[string]int{"a": 1}) },
 		Keys: []keyGroup{kg(`"a"`), kg(`"b"`), kg("@s1")}},
-	"host:gomapi": {Name: "host:gomapi", Build: func(r *goja.Runtime) goja.Value { return r.ToValue(map[int]int{0: 1}) },
+	"host:gomapi": {Name: "host:gomapi", Unordered: true, Build: func(r *goja.Runtime) goja.Value { return r.ToValue(map[int]int{0: 1}) },
 		Keys: []keyGroup{kg("0", `"0"`), kg("1", `"1"`), kg(`"a"`)}},
 	"host:goslice": {Name: "host:goslice", Build: func(r *goja.Runtime) goja.Value { return r.ToValue([]interface{}{1, 2}) },
 		Keys: []keyGroup{kg("0", `"0"`), kg("2", `"2"`), kg("3", `"3"`), kg(`"length"`), kg(`"a"`), kg("@s1")}},
